@@ -204,6 +204,15 @@ func (x *Exec) selectOp(st *State, fr *Frame, v *ssa.Select) Val {
 			if c, ok := doneChans[cv.T.S]; ok {
 				x.ufun("neverCancelled", []string{SInt}, SBool)
 				st.assume(Implies(app("neverCancelled", SBool, c), Neq(idx, IntT(int64(i)))))
+				// remembered for Err(): once the done channel was seen ready the context has an error
+				if st.CtxSel == nil {
+					st.CtxSel = map[string]Term{}
+				}
+				took := Eq(idx, IntT(int64(i)))
+				if old, ok := st.CtxSel[c.S]; ok {
+					took = Or(old, took)
+				}
+				st.CtxSel[c.S] = took
 			}
 		}
 	}
